@@ -6,14 +6,19 @@ property oracle, shrinking.
 
 A case is a JSON-able dict
 
-    {"obj": OPERAND, "prm": OPERAND | {"kind": "scalar", "v": int} | {"kind": "array", "vals": [int, ...]},
-     "labels": {level name: "int" | "rev" | "str" | "float" | "interval"},   (optional, default "int")
+    {"obj": OPERAND, "prm": OPERAND | {"kind": "scalar", "v": int, "st": "py" | "np" | "0d"}     ("st", optional: python number |
+                                     | {"kind": "array", "vals": [int, ...], "np": bool},         numpy scalar | 0-d array;  "np",
+                                                              optional, default true: numpy array, false: a python list)
+     "labels": {level name: "int" | "rev" | "str" | "float" | "interval" | "dt" | "cat"},   (optional, default "int"; "dt" =
+                   Timestamps, "cat" = a Categorical level)
      "name_types": {level name: "zero" | "empty" | "float0" | "tuple" | "float" | "bytes"},   (optional: the real
                    pandas name of the level is 0 / '' / 0.0 / a tuple / a float / bytes instead of the string)
      "share_index": true,                                               (optional: one Index object for both)
      "cells": "int" | "frac" | "i64" | "nan1",                          (optional, default "int": how a cell id becomes a value)
      "rec_labels": "str" | "int" | "float" | "tuple",                   (optional: entry labels of a one-level record Series)
-     "anon_plain": true}                                                (optional: unnamed levels carry the bare codes on BOTH sides)
+     "anon_plain": true,                                                (optional: unnamed levels carry the bare codes on BOTH sides)
+     "outside": true}                                                   (optional: overlapping level names with a shared key missing on
+                   one side = outside the property's quantifier: correspondence and 'operands unchanged' only)
     OPERAND = {"kind": "series" | "frame", "names": [str | None, ...], "keys": [[int, ...], ...], "ncols": int,
                "mi1": true}                          (optional: a ONE-level index is built as a MultiIndex of one level)
 
@@ -26,9 +31,12 @@ id*1.1 + 0.007 ("frac": not whole, not representable in float32), "i64": the obj
 parameter's are "frac", "nan1": "frac" with one NaN cell in each operand.  The model works on ids; the harness maps
 the values that come back to ids (`value_id`), any other value is shown as it is and so disagrees.
 
-Two further kinds of case, {"kind": "woehler", ...} and {"kind": "haigh", ...}, exercise the clause "every
-calculation built on it": the allowable cycles of per-element Woehler curves for per-scenario loads, and the
-FKM-Goodman Haigh diagram of several elements (meanstress.py).
+Five further kinds of case (CONSUMER_KINDS) exercise the clause "every calculation built on it": {"kind": "woehler", ...}
+the allowable cycles of per-element Woehler curves for per-scenario loads; {"kind": "haigh", ...} the FKM-Goodman Haigh
+diagram of several elements (meanstress.py); {"kind": "haigh-five", ...} the five-segment Haigh diagram of several elements;
+{"kind": "haigh-transform", ...} HaighDiagram.transform of per-element or disjoint cycles (with droplevel);
+{"kind": "collective-raise", ...} LoadCollective.scale / shift on index layouts on which the alignment raises (and one on
+which it does not): collective and operand unchanged, a returned result scaled / shifted row by row.
 """
 import copy
 import itertools
@@ -955,7 +963,7 @@ def flat_vs_multi(own, other):
 
 def nan_level_rows(case):
     """Some partner-less row is kept by the outer join although its operand lacks a level of the result: its key is
-    NaN there.  On the unrepaired tree `restore_real_index` raises IndexError on exactly these pairs."""
+    NaN there.  On the tree before /repo commit 83030b7 `restore_real_index` raised IndexError on exactly these pairs."""
     (on, orows), prm = tables(case)
     if prm[0] != "T":
         return False
@@ -987,10 +995,13 @@ def one_level_multiindex(case):
     return bool(case["obj"].get("mi1") or case["prm"].get("mi1"))
 
 
-# Findings with a repair under tools/fixes that is modelled as applied.  class -> (predicate on the case, exception
-# type, start of the message): on a tree without the repair the call raises exactly that; the correspondence tolerates
-# exactly this answer for exactly these cases while the class is OPEN in KNOWN_FINDINGS.jsonl, the oracle reports the
-# class.  With the repair committed (status fixed) nothing is tolerated any more.
+# Findings whose repair is modelled as applied.  class -> (predicate on the case, exception type, start of the
+# message): on a tree without the repair the call raises exactly that; the correspondence tolerates exactly this answer
+# for exactly these cases while the class is OPEN in KNOWN_FINDINGS.jsonl, the oracle reports the class.  With the repair
+# committed (status fixed) nothing is tolerated any more.  All three repairs are committed today (record-nonstring-entries:
+# bc2cb7f, one-level-multiindex: 190635a, contained-multi-shared-missing-key: 83030b7), no C13 class is open: the tolerance
+# is inert.  The class contained-multi-shared-missing-key uses the broader predicate `nan_level_rows`;
+# `contained_multi_missing()` above is not used.
 PENDING = {
     "record-nonstring-entries": (record_entries_not_strings, "TypeError", ("keywords must be strings",)),
     "one-level-multiindex": (one_level_multiindex, "KeyError", ("None",)),
@@ -1524,11 +1535,13 @@ class C13(Prop):
     PARTIAL = {
         "PylifeVerif.C13.broadcast_no_row_lost_partial":
             "completeness ('every row of both operands is represented in the result') is not in the property's text, which "
-            "speaks about the rows of the result; it is proved under the guard 'the row has a partner, or a level is shared and "
-            "the row's operand is not a one-level index joined with a MultiIndex'.  The unguarded statement is false: the "
+            "speaks about the rows of the result; it is proved under a guard PER OPERAND: 'EVERY row of the operand has a partner in the "
+            "other operand, or a level is shared and the operand is not a one-level index joined with a MultiIndex' (the per-row form of "
+            "the guard is obj_row_represented_iff / prm_row_represented_iff).  The unguarded statement is false: the "
             "partner-less rows of a ONE-level operand whose level is contained in the other operand's >= 2 levels are left out "
             "(pandas' join on a level; kernel-checked at PylifeVerif.C13.row_lost_at_witness, characterised exactly by "
-            "obj_row_lost_iff / obj_row_represented_iff / prm_row_represented_iff).  The oracle accepts such a row only absent "
+            "obj_row_lost_iff - object side only, there is no parameter-side mirror of it - and obj_row_represented_iff / "
+            "prm_row_represented_iff).  The oracle accepts such a row only absent "
             "or with NaN in the levels it lacks and counts both (stats partnerless_rows_lacking_a_level).",
     }
     RULE = ("case = (object Series/DataFrame, parameter scalar/array/Series/DataFrame) given by level names (None = unnamed), "
@@ -1538,7 +1551,14 @@ class C13(Prop):
             "objects with non-string entries against arrays + seeded random cases (1-3 levels, 1-6 rows, names equal / "
             "permuted / disjoint / contained / overlapping with every shared key present, unnamed levels, equal lengths, int / "
             "reversed-int / string / float / interval labels) + scalar / array / record cases + consumer cases (allowable "
-            "cycles, Haigh diagram, Haigh transform with droplevel); correspondence compares the two returned objects as sorted "
+            "cycles, Haigh diagram, five-segment Haigh diagram (haigh-five), Haigh transform with droplevel, LoadCollective.scale / shift "
+            "on layouts where the alignment raises (collective-raise)); also generated: 7 layouts in which both operands are built from ONE shared Index "
+            "object (plus random ones); level names 0 / '' / 0.0 / tuple / float instead of strings; operands without rows (exhaustive "
+            "layouts only); datetime and categorical labels; unnamed levels with the same bare codes on both sides (anon_plain); scalars as "
+            "python number / numpy scalar / 0-d array and arrays as numpy array / python list; 4 % of the random cases are overlapping "
+            "layouts with a shared key missing on one side (`outside` the quantifier: correspondence and operands-unchanged only); the equal "
+            "/ permuted / disjoint / contained layouts are drawn with keys missing on one side in 40 % of the cases (only the overlapping "
+            "layout is restricted to 'every shared key present'); correspondence compares the two returned objects as sorted "
             "key->cells sets and the result level order with the Lean model; non-trivial = a pandas parameter whose level "
             "names are not identical to the object's, or an array; distinct by full case")
     ASSUMPTIONS = [
@@ -1558,10 +1578,11 @@ class C13(Prop):
         "Tbl.KeysNodup); an operand without rows is generated on the exhaustive layouts only",
         "C13: `droplevel` (HaighDiagram.transform) is not in the model; it is observed through the consumer oracle "
         "haigh-transform only",
-        "C13: the model describes the code after the repairs tools/fixes/C13-align-equal-values.diff (F-6, committed), "
-        "C13-outer-join-nan-levels.diff, C13-one-level-multiindex.diff, C13-record-entries-any-label.diff; while the finding "
-        "class of an uncommitted repair is open in KNOWN_FINDINGS.jsonl, the correspondence tolerates exactly the unrepaired "
-        "exception on exactly the cases of that class (harness/c13.py: PENDING)",
+        "C13: the model describes the code after the repairs, all committed in /repo: b3ce47d (align-equal-values, F-6), 83030b7 "
+        "(outer join with NaN levels), 190635a (one-level MultiIndex), bc2cb7f (record entries with any label), c67dac2 (operands and "
+        "shared Index objects untouched), 20f8491 (level names that are not strings); no C13 finding class is open in "
+        "KNOWN_FINDINGS.jsonl, so the tolerance of the correspondence for the unrepaired exception of an OPEN class "
+        "(harness/c13.py: PENDING) is inert today",
         "C13: exhaustive = all ordered key lists with <= 2 (thorough: 3) rows over 2 codes on the listed level-name layouts "
         "only; everything else is sampled",
     ]
@@ -1672,7 +1693,8 @@ class C13(Prop):
     # -------------------------------------------------------------- correspondence
     def model_lines(self, case):
         if case.get("kind") in CONSUMER_KINDS or int_name_not_first(case):
-            return []       # (open finding int-level-name-as-position: pandas' behaviour there is not modelled; oracle only)
+            return []       # (consumer kinds: oracle only.  int_name_not_first always returns False since the finding
+            #                  int-level-name-as-position is fixed by 20f8491: that part of the condition is dead)
         t = spec_tokens(case)
         return ["bc_obj " + t, "bc_prm " + t, "bc_names " + t]
 
@@ -1689,7 +1711,7 @@ class C13(Prop):
     def impl_lines(self, case):
         if case.get("kind") in CONSUMER_KINDS:
             return []
-        if int_name_not_first(case):
+        if int_name_not_first(case):        # always False since 20f8491 (see int_name_not_first): branch and stat are dead
             self.stats["int_name_not_first_cases_oracle_only"] = self.stats.get("int_name_not_first_cases_oracle_only", 0) + 1
             return []
         self._count(case)
